@@ -987,20 +987,9 @@ func c05Regions(o c05Opts, f *syntax.File) []string {
 		}
 		return cmdEndsBare(s.Cmd)
 	}
-	anyHdoc, anyBare, anyYComs := false, false, false
-	syntax.Walk(f, func(n syntax.Node) bool {
-		if r, ok := n.(*syntax.Redirect); ok && (r.Op == syntax.Hdoc || r.Op == syntax.DashHdoc) {
-			anyHdoc = true
-		}
-		return true
-	})
+	anyBare, anyYComs := false, false
 	syntax.Walk(f, func(n syntax.Node) bool {
 		switch n := n.(type) {
-		case *syntax.TestClause:
-			if (o.single || o.minify) && anyHdoc {
-				// parser defect: a heredoc body is not read at the newline that follows `]]`
-				set("heredoc-then-test-clause")
-			}
 		case *syntax.BinaryCmd:
 			if len(n.Y.Comments) > 0 {
 				anyYComs = true
@@ -1096,7 +1085,7 @@ func c05TieSkip(o c05Opts, f *syntax.File, d *c05Dumper) string {
 	}
 	for _, ex := range c05Regions(o, f) {
 		switch ex {
-		case "comment-after-bare-time-coproc", "heredoc-then-test-clause":
+		case "comment-after-bare-time-coproc":
 			return ex
 		}
 	}
